@@ -67,7 +67,7 @@ def instance_attrs(prog, cls):
 def extract(prog, cls, meth, argname):
     f = prog.own_method(cls, meth)
     ren = {}
-    ev = SymEval(prog, f, rename=ren, args={f.params[1]: S.sym(argname)}, inline_props=False).run()
+    ev = SymEval(prog, f, rename=ren, args={f.params[1]: S.sym(argname)}, inline_props=False, inline_self=True).run()
     if not ev.returns:
         raise AnalysisError("%s.%s has no return" % (cls.name, meth))
     val = None
@@ -103,6 +103,10 @@ def identity(ctx, R, f, what, comp, var, dom, pos):
             ok = False
         if ok:
             ctx.ok(R, f.loc(), "%s on %s reduces to the identity" % (what, iv), {"piece": S.show(leaf)[:160]})
+            continue
+        if any(x.op == "sym" and x.args[0] in ("numpy.inf", "math.inf", "numpy.nan", "math.nan") for x in S.walk(s)):
+            ctx.bad(R, f, f.node, "%s is %s on %s: the map is not finite there, hence neither invertible nor strictly increasing on its documented range"
+                    % (what, S.show(s)[:60], iv), "%s == identity" % what)
             continue
         # refute with an exact / high-precision witness inside the piece
         w = None
